@@ -1,3 +1,4 @@
+-- DRIVER-PROPS: C14
 /- driver handler for C14 (vesting): replays op sequences on the model, compares with the
 implementation's observations, and evaluates the property predicates on the observations. -/
 import ElysModel.Drv.Util
@@ -109,5 +110,11 @@ def handle (s : S) (i : Nat) (j : Json) : S × List Json :=
     | _, _, _ => (s, [verdictBad i "c14.op after"])
   | some "stats" => (s, [])
   | _ => (s, [verdictBad i "unknown t"])
+
+def run (prop : String) : IO Unit := do
+  let stdin ← IO.getStdin
+  let stdout ← IO.getStdout
+  let _ := prop
+  loop stdin stdout handle {} 0
 
 end Elys.Drv.C14
